@@ -232,8 +232,9 @@ class Target:
         if fr.session == 0 or fr.session not in self.sessions or fr.session != self.ep.session:
             if connected:
                 self.event("C10/I1/unitdata-without-session", f"SendUnitData with session {fr.session:#x}; registered: {sorted(self.sessions)}")
-            else:
-                self.event("C11/session-handle", f"SendRRData with session {fr.session:#x}; registered: {sorted(self.sessions)}")
+            elif not (fr.session == 0 and self.ep.session is None):
+                # handle 0 while no session has been granted on this TCP connection is "before registration"
+                self.event("C11/session-handle", f"SendRRData with session {fr.session:#x}; granted on this TCP connection: {self.ep.session!r}")
             return self._err(fr, 0x0064)
         try:
             iface, timeout, items = W.parse_cpf(fr.body)
